@@ -298,6 +298,9 @@ def limit_streams(mls: int, mfs: int, mh: int):
             # request line of exactly L bytes
             rl = b"GET /" + b"p" * (L - len(b"GET / HTTP/1.1")) + b" HTTP/1.1"
             yield (f"reqline@{name}{d:+d}", rl + b"\r\nHost: a\r\n\r\n" + NEXT)
+            # the same start line as the second message of one read: behind a body-less request and behind a body
+            yield (f"reqline2@{name}{d:+d}", b"GET /p HTTP/1.1\r\nHost: p\r\n\r\n" + rl + b"\r\nHost: a\r\n\r\n" + NEXT)
+            yield (f"reqline3@{name}{d:+d}", b"POST /p HTTP/1.1\r\nHost: p\r\nContent-Length: 2\r\n\r\nok" + rl + b"\r\nHost: a\r\n\r\n" + NEXT)
             # field line of exactly L bytes (name: value)
             fl = pad(b"X-Long: ", L)
             yield (f"field@{name}{d:+d}", b"GET / HTTP/1.1\r\nHost: a\r\n" + fl + b"\r\n\r\n" + NEXT)
